@@ -98,6 +98,7 @@ class World:
         self.hash_fault_hook = None
         self.serve_config = None
         self.pending_capture = None
+        self.fs_listeners = []
 
     def hash_fault_for(self, worker):
         if self.hash_fault_hook is None:
